@@ -4,7 +4,7 @@ set -e
 export CARGO_NET_OFFLINE=true
 cd /verif
 python3 tools/translate.py || true
-(cd lean && lake build driver RucteModel RucteTables RucteProofs; lake build RucteProps || true)
+(cd lean && lake build driver RucteModel RucteTables RucteProofs; lake build RucteProps RucteProofs.SrcGen || true)
 cp /repo/Cargo.lock harness/Cargo.lock 2>/dev/null || true
 cd harness
 cargo build --release --offline --target-dir target
